@@ -38,21 +38,31 @@ def base_lp(samples, map_fn=map):
     return 0.0
 
 
+def base_ll1(samples, map_fn=map):
+    return 1.0
+
+
+def base_lp1(samples, map_fn=map):
+    return 1.0
+
+
 class Real:
     def __init__(self):
         from aspire import Aspire
         self.a = Aspire(log_likelihood=base_ll, log_prior=base_lp, dims=2, parameters=["a", "b"])
         self.pools = {"p1": FakePool("p1"), "p2": FakePool("p2")}
         self.stack = []   # (cm, kind, snapshot, poolname, close)
+        self.handlers = []  # (PoolHandler, poolname, close)
 
-    def term(self, f, base, name):
-        if f is base:
-            return {"f": name, "pool": "none"}
+    def term(self, f, names):
+        for base, name in names.items():
+            if f is base:
+                return {"f": name, "pool": "none"}
         if isinstance(f, functools.partial):
             mf = f.keywords.get("map_fn")
             pool = getattr(mf, "__self__", None)
             inner = f.func
-            return {"f": name if inner is base else "?", "pool": getattr(pool, "name", "?")}
+            return {"f": names.get(inner, "?"), "pool": getattr(pool, "name", "?")}
         return {"f": "?", "pool": "?"}
 
     def defaults(self):
@@ -62,8 +72,8 @@ class Real:
         return {"on": True, "path": str(d["path"]), "every": int(d["every"]), "save_config": bool(d["save_config"])}
 
     def project(self):
-        return {"L": self.term(self.a.log_likelihood, base_ll, "L0"),
-                "P": self.term(self.a.log_prior, base_lp, "P0"),
+        return {"L": self.term(self.a.log_likelihood, {base_ll: "L0", base_ll1: "L1"}),
+                "P": self.term(self.a.log_prior, {base_lp: "P0", base_lp1: "P1"}),
                 "defaults": self.defaults(), "depth": len(self.stack),
                 "closed": {k: v.closed for k, v in self.pools.items()},
                 "joined": {k: v.joined for k, v in self.pools.items()}}
@@ -109,18 +119,20 @@ class Real:
                 tok = tok.strip()
                 args.append(True if tok == "TRUE" else False if tok == "FALSE" else (int(tok) if tok.isdigit() else tok.strip('"')))
         viol = []
-        if name == "EnterPool":
+        if name == "MakePool":
             p, c, pp, use = args
-            snap = self.snap()
+            # pool=None + close_pool=True is invalid use (PoolHandler would call None.close()): callers skip it
             cm = self.a.enable_pool(self.pools[p] if use else None, close_pool=c, parallelize_prior=pp)
-            if not use:
-                # PoolHandler closes self.pool unconditionally when asked to: give it a pool object to
-                # close but none to map with is not expressible; pool=None + close_pool=True is invalid use
-                if c:
-                    cm = self.a.enable_pool(None, close_pool=False, parallelize_prior=pp)
-                    c = False
+            self.handlers.append((cm, p, c))
+        elif name == "EnterPool":
+            cm, p, c = self.handlers[args[0] - 1]
+            snap = self.snap()
             cm.__enter__()
             self.stack.append((cm, "pool", snap, p, c))
+        elif name == "SetL":
+            self.a.log_likelihood = base_ll1
+        elif name == "SetP":
+            self.a.log_prior = base_lp1
         elif name == "EnterAuto":
             path, ev, sc = args
             snap = self.snap()
@@ -183,15 +195,19 @@ def main(prop, tier, seed, replay_path=None):
     wd = common.workdir("ctx")
     try:
         cfg = wd / "e1.cfg"
-        cfg.write_text("SPECIFICATION Spec\nCONSTANTS\n  Pools = {\"p1\", \"p2\"}\n  MaxDepth = 3\n"
-                       f"  MaxOps = {6 if tier == 'quick' else 7}\nINVARIANT ContextsRestored\nINVARIANT PoolClosedIffAsked\nINVARIANT AllClosedMeansPristine\n")
+        cfg.write_text("SPECIFICATION Spec\nCONSTANTS\n  Pools = {\"p1\", \"p2\"}\n  MaxDepth = 3\n  MaxHandlers = 2\n"
+                       "  PoolOpts <- AllPoolOpts\n  AutoOpts <- AllAutoOpts\n"
+                       f"  MaxOps = {6 if tier == 'quick' else 8}\nINVARIANT ContextsRestored\nINVARIANT PoolClosedIffAsked\nINVARIANT AllClosedMeansPristine\n")
         r1 = common.run_tlc("Contexts", str(cfg), workers=16, metaname="ctx-e1")
         common.require_tlc_ok(r1, "Contexts")
         for inv in r1.violated:
             verdict.model_drift(f"Contexts.tla: {inv} violated at design level")
         g_cfg = wd / "g.cfg"
-        g_cfg.write_text("SPECIFICATION Spec\nCONSTANTS\n  Pools = {\"p1\", \"p2\"}\n  MaxDepth = 3\n"
-                         f"  MaxOps = {3 if tier == 'quick' else 4}\n")
+        # deep replay graph over reduced option sets (handlers prepared up front, entered later, entered
+        # again after use, the user's reassignments in between); thorough adds a shallow graph over all options
+        g_cfg.write_text("SPECIFICATION Spec\nCONSTANTS\n  Pools = {\"p1\", \"p2\"}\n  MaxDepth = 3\n  MaxHandlers = 2\n"
+                         "  PoolOpts <- FewPoolOpts\n  AutoOpts <- FewAutoOpts\n"
+                         f"  MaxOps = {6 if tier == 'quick' else 7}\n")
         g, rg = stategraph.dump_graph("Contexts", str(g_cfg), "contexts")
     finally:
         common.cleanup(wd)
@@ -202,13 +218,13 @@ def main(prop, tier, seed, replay_path=None):
         edges = list(g.edges)
         rnd.shuffle(edges)
         if tier == "quick":
-            edges = edges[:4000]
+            edges = edges[:12000]
         jobs = []
         for (u, v, lab) in edges:
             # pool=None with close_pool=True is not a valid use (PoolHandler would call None.close())
             _, path = g.path_to(u)
             labels = [l for (_, l) in path] + [lab]
-            if any(re.match(r'EnterPool\("p\d",TRUE,(TRUE|FALSE),FALSE\)', l) for l in labels):
+            if any(re.match(r'MakePool\("p\d",TRUE,(TRUE|FALSE),FALSE\)', l) for l in labels):
                 continue
             states = [g.nodes[n] for (n, _) in path] + [g.nodes[v]]
             jobs.append((labels, states))
@@ -231,7 +247,8 @@ def main(prop, tier, seed, replay_path=None):
         verdict.model_drift(f"Contexts: after {' ; '.join(r['labels'][: r['drift']['at'] + 1])}: model {r['drift']['model']} vs code {r['drift']['real']}")
     # binding self-test: a manager that does not restore must be rejected by the judge
     rr = Real()
-    rr.apply('EnterPool("p1",FALSE,TRUE,TRUE)')
+    rr.apply('MakePool("p1",FALSE,TRUE,TRUE)')
+    rr.apply('EnterPool(1)')
     cm, kind, snap, pname, close = rr.stack[-1]
     cm.original_log_prior = base_ll     # sabotage the manager's saved value
     st = rr.pop_one(None)
